@@ -101,6 +101,7 @@ type pool struct {
 	medium       []*bund
 	deltas       []*bund
 	huge         *bund
+	sentinel     *bund // stored only outside traces (in a directory the cache path no longer denotes)
 	all          []*bund // by id-1
 	dir          string
 	sizes        map[[2]int]int64 // size of the complete entry file for (base id, delta id)
@@ -242,6 +243,8 @@ type wplan struct {
 }
 
 type world struct {
+	base    string // scratch directory holding everything of this world
+	restore func() // undo a change of the working directory
 	root    string
 	cache   *crl.FileCache // the instance the in-process writers and the `get` events use
 	reader  *crl.FileCache // a second instance over the same directory, used by the probes
@@ -290,21 +293,101 @@ var worldSeq int
 
 // newWorld: a fresh cache directory, `nkeys` URLs that writers store to plus one more URL of the
 // same family that nobody ever stores (it must always be a miss).
+// How the cache root PATH relates to physical directories. The cache is addressed by its path:
+// every FileCache value on the path, whenever it was created, and every process must meet in the
+// directory the path denotes NOW. In the non-plain flavours the path is re-pointed to a fresh empty
+// directory after the first FileCache value (the one the in-process writers and `get` events use)
+// was created and had stored a sentinel bundle for URL 0 in the old directory; the second value
+// (probes) and the child processes are created afterwards. The trace starts after that, on an empty
+// cache - so the model needs no notion of it.
+const (
+	plainRoot        = iota
+	symlinkSwitched  // <base>/current -> v1, re-pointed (atomically) to v2
+	renamedRecreated // <base>/cache renamed away and created again
+	relativeChdir    // root "cache" relative to the working directory, chdir in between
+)
+
+var flavourName = []string{"plain", "symlink-switched", "renamed-and-recreated", "relative-path-and-chdir"}
+
 func newWorld(c *common.Ctx, pl *pool, nkeys int, plans []wplan) (*world, error) {
+	fl := plainRoot
+	switch (worldSeq + 1) % 7 {
+	case 2:
+		fl = symlinkSwitched
+	case 5:
+		fl = renamedRecreated
+	}
+	return newWorldFlavour(c, pl, nkeys, plans, fl)
+}
+
+func newWorldFlavour(c *common.Ctx, pl *pool, nkeys int, plans []wplan, flavour int) (*world, error) {
 	worldSeq++
-	root := filepath.Join(c.WorkDir, fmt.Sprintf("w%d-%d", os.Getpid(), worldSeq))
-	os.RemoveAll(root) // never inherit anything from an earlier run in a reused scratch directory
+	base, err := filepath.Abs(filepath.Join(c.WorkDir, fmt.Sprintf("w%d-%d", os.Getpid(), worldSeq)))
+	if err != nil {
+		return nil, err
+	}
+	os.RemoveAll(base) // never inherit anything from an earlier run in a reused scratch directory
+	root := filepath.Join(base, "cache")
+	var repoint func() error
+	var restore func()
+	switch flavour {
+	case symlinkSwitched:
+		root = filepath.Join(base, "current")
+		for _, v := range []string{"v1", "v2"} {
+			if err := os.MkdirAll(filepath.Join(base, v), 0o700); err != nil {
+				return nil, err
+			}
+		}
+		if err := os.Symlink("v1", root); err != nil {
+			return nil, err
+		}
+		repoint = func() error {
+			tmp := filepath.Join(base, "current.new")
+			if err := os.Symlink("v2", tmp); err != nil {
+				return err
+			}
+			return os.Rename(tmp, root)
+		}
+	case renamedRecreated:
+		repoint = func() error { return os.Rename(root, filepath.Join(base, "cache.old")) }
+	case relativeChdir:
+		old, err := os.Getwd()
+		if err != nil {
+			return nil, err
+		}
+		for _, v := range []string{"cd1", "cd2"} {
+			if err := os.MkdirAll(filepath.Join(base, v), 0o700); err != nil {
+				return nil, err
+			}
+		}
+		if err := os.Chdir(filepath.Join(base, "cd1")); err != nil {
+			return nil, err
+		}
+		root = "cache"
+		repoint = func() error { return os.Chdir(filepath.Join(base, "cd2")) }
+		restore = func() { os.Chdir(old) }
+	}
 	fc, err := crl.NewFileCache(root)
 	if err != nil {
 		return nil, err
+	}
+	fam := urlFamilies[(worldSeq+int(c.Seed))%len(urlFamilies)]
+	perm := c.Rand.Perm(len(fam.urls))
+	if repoint != nil {
+		// something is in the old directory under URL 0 - a bundle no Set call of the trace stores
+		if err := fc.Set(context.Background(), fam.urls[perm[0]], &corecrl.Bundle{BaseCRL: pl.sentinel.rl}); err != nil {
+			return nil, err
+		}
+		if err := repoint(); err != nil {
+			return nil, err
+		}
 	}
 	rd, err := crl.NewFileCache(root)
 	if err != nil {
 		return nil, err
 	}
-	fam := urlFamilies[(worldSeq+int(c.Seed))%len(urlFamilies)]
-	w := &world{root: root, cache: fc, reader: rd, plans: plans, family: fam.name, pool: pl}
-	perm := c.Rand.Perm(len(fam.urls))
+	c.Count("root=" + flavourName[flavour])
+	w := &world{root: root, base: base, restore: restore, cache: fc, reader: rd, plans: plans, family: fam.name, pool: pl}
 	seen := map[string]bool{}
 	for k := 0; k < nkeys+1; k++ {
 		u := fam.urls[perm[k]]
@@ -345,7 +428,12 @@ func (w *world) specs() []WSpec {
 	return out
 }
 
-func (w *world) cleanup() { os.RemoveAll(w.root) }
+func (w *world) cleanup() {
+	if w.restore != nil {
+		w.restore()
+	}
+	os.RemoveAll(w.base)
+}
 
 // classify canonicalises a Get result: miss / complete bundle (ids of its base and delta CRL,
 // looked up by their DER among all CRLs the harness ever minted) / anything else.
